@@ -1,4 +1,5 @@
 import SupervisorModel.Model.OutDisp
+import SupervisorModel.Lemmas.OutDispMain
 /-
   Helper lemmas for C07/C08: first-occurrence search (`splitFirst` = `data.split(token, 1)`),
   the longest token prefix at the end of a buffer (`pae`, the specification of medusa's
